@@ -64,6 +64,7 @@ namespace Givaro {
         //  be complete
         Rep& factor(Rep& r, const Rep& n, unsigned long loops = 0) const
         {
+            if (&r == &n) { const Rep nn(n); return factor(r, nn, loops); } // in place: r is written before n is read again
             if (isOne(gcd(r,n,PROD_first_primes)))
                 if (isOne(gcd(r,n,PROD_second_primes))) {
 #ifdef GIVARO_LENSTRA
